@@ -469,6 +469,28 @@ def _configure_result(ctx, acm):
         ctx.ob('C13.6', conf, ret, ok,
                '_configure reports success only after the running link was '
                'created', construct='configure success')
+    # a manifest that could not be configured (and was reported aborted)
+    # leaves the cache: every failure answer is preceded by the removal of
+    # the cache entry, or the next resynchronisation starts it again
+    def drops_entry(node):
+        for c in C.node_calls(node):
+            if K.callee_text(c) in ('fs.rm_safe', 'os.unlink', 'os.remove') \
+                    and c.args:
+                txt = K.rtxt(conf, c.args[0])
+                if 'cache_dir' in txt and conf.params()[1] in txt:
+                    return True
+        return False
+    for ret in [n for n in cgraph.nodes if n.kind == 'return']:
+        val = ret.ast.value
+        if not (val is None or (isinstance(val, ast.Constant) and
+                                not val.value)):
+            continue
+        ok = K.guarded_by(cgraph, ret, lambda e: drops_entry(e.src) and
+                          e.kind != 'exc')
+        ctx.ob('C13.6', conf, ret, ok,
+               'a manifest that cannot be configured is removed from the '
+               'cache before _configure answers failure',
+               construct='configure failure drops the cache entry')
     res = acm.methods.get('_resolve_running_link')
     if res is not None:
         K.tolerance_polarity(ctx, 'C13.2', res)
@@ -648,6 +670,65 @@ def _gating(ctx, acm):
            bool(syn) and inactive,
            'the ready marker activates the manager and triggers a resync',
            construct='activate + resync')
+
+
+def _wiring(ctx, acm):
+    """C13.5: the cache directory is watched, each kind of cache event is
+    wired to the handler checked above, and the queued events are processed
+    in the service loop - otherwise nothing of the gating is ever run and
+    the running links stop following the cache."""
+    handlers = {'on_created': '_on_created', 'on_modified': '_on_modified',
+                'on_deleted': '_on_deleted'}
+    runs = []
+    for func in acm.live_methods():
+        for sub in K.walk_no_nested(func.node):
+            if isinstance(sub, ast.Call) and \
+                    K.callee_text(sub).endswith('DirWatcher'):
+                runs.append((func, sub))
+    ctx.require(runs, 'the directory watcher of AppCfgMgr', rule='C13.5')
+    for func, ctor in runs:
+        watched = K.rtxt(func, ctor.args[0]) if ctor.args else ''
+        ctx.ob('C13.5', func, ctor, watched.endswith('.cache_dir'),
+               'the manager watches the cache directory (%s)' % watched,
+               construct='watched directory')
+        holders = set()
+        for sub in K.walk_no_nested(func.node):
+            if isinstance(sub, ast.Assign) and sub.value is ctor and \
+                    isinstance(sub.targets[0], ast.Name):
+                holders.add(sub.targets[0].id)
+        wired = {}
+        for sub in K.walk_no_nested(func.node):
+            if isinstance(sub, ast.Assign) and isinstance(
+                    sub.targets[0], ast.Attribute) and \
+                    N.txt(sub.targets[0].value) in holders:
+                wired.setdefault(sub.targets[0].attr, []).append(
+                    K.rtxt(func, sub.value))
+        for slot, meth in sorted(handlers.items()):
+            ctx.ob('C13.5', func, ctor,
+                   wired.get(slot) == ['self.%s' % meth],
+                   '%s events go to %s (found %s)' % (slot, meth,
+                                                      wired.get(slot)),
+                   construct='%s wired' % slot)
+        graph = ctx.cfg(func)
+        procs = [n for n, c in K.nodes_calling(
+            graph, lambda c: K.is_meth(c, 'process_events') and
+            K.recv_text(c) in holders)]
+        waits = [n for n in graph.nodes if n.kind == 'test' and any(
+            K.is_meth(c, 'wait_for_events') and K.recv_text(c) in holders
+            for c in K.test_calls(func, n))]
+        ctx.require(waits, 'wait for cache events in %s' % func.qualname,
+                    rule='C13.5', func=func)
+        for wait in waits:
+            hit = [e for e in wait.succ if e.kind == 'true']
+            ok = bool(procs) and all(
+                e.dst in procs or K.find_path(
+                    e.dst, [wait, graph.exit],
+                    cut_node=lambda n: n in procs,
+                    follow_exc=False) is None for e in hit)
+            ctx.ob('C13.5', func, wait, ok,
+                   'pending cache events are processed whenever the wait '
+                   'reports some',
+                   construct='cache events processed')
 
 
 def _running_owner(ctx, acm):
@@ -867,6 +948,7 @@ def check(ctx):
     _configure_result(ctx, acm)
     _keep_running(ctx, acm, sync, graph, loop, cvar, ksync)
     _gating(ctx, acm)
+    _wiring(ctx, acm)
     _running_owner(ctx, acm)
     _nothing_dropped(ctx, sync, graph, loop, cvar)
 
